@@ -16,7 +16,10 @@ RULE = ("MAF texts (header pragmas, column line, 0-7 data lines) read through Ma
         "(duplicate or invalid sort.order pragmas, unlisted chromosome, non-numeric position, a short line "
         "giving an empty record); contig lists of 4-6 and of 25-30 names; for a share of the cases the same data "
         "under a header with a different contig list (reversed / rotated) is read first in the same interpreter "
-        "(\"warm\"); observed: records yielded (their accessor values) and how the loop ended; "
+        "(\"warm\"); typed lines may carry an invalid value in a column that is not part of the key (Strand, "
+        "Variant_Type: the record has a validation error but all its key columns); lines are handed to the reader "
+        "bare, LF- or CRLF-terminated; the extra column of scheme-less files is last, first or absent (so that a key "
+        "column can be the last one); observed: records yielded (their accessor values) and how the loop ended; "
         "non-trivial = at least two records in the file and a sortable order declared or at least one record "
         "yielded; distinct by hash of the case")
 ASSUMPTIONS = [
@@ -150,7 +153,15 @@ def _gen_one(rng):
                      and l.split(" ", 1)[1] in ("Coordinate", "BarcodesAndCoordinate", "Unsorted", "Unknown")), None)
     first_ct = next((l.split(" ", 1)[1].split(",") for l in header if l.startswith("#contigs ")), None)
     declared = [first_so, first_ct]
-    colnames = C.GDC_NAMES if typed else [nm for nm, _ in names] + ["Other"]
+    other = "last"
+    if not typed and names and rng.random() < 0.5:
+        other = rng.choice(["first", "none"])
+    colnames = C.GDC_NAMES if typed else [c for c, _ in _with_other({"other": other}, [[nm, None] for nm, _ in names])]
+    if typed:
+        # an invalid value in a column the key does not use: the record keeps all its key columns
+        descs = [(dict(d, f=dict(d["f"], **rng.choice([{"strand": "?"}, {"vtype": "XYZ"}, {"strand": "", "vtype": "snp?"}])))
+                  if (d["kind"] == "typed" and rng.random() < 0.3) else d) for d in descs]
+    eol = rng.choice(["", "", "\n", "\r\n", "\r\n"])
     warm = None
     if declared[1] and len(declared[1]) > 1 and declared[0] in ("Coordinate", "BarcodesAndCoordinate") and rng.random() < 0.35:
         w = list(declared[1])
@@ -161,7 +172,7 @@ def _gen_one(rng):
             w = w[k:] + w[:k]
         warm = w
     return {"stream": stream, "typed": typed, "header": header, "declared": declared, "names": colnames, "rows": descs,
-            "warm": warm}
+            "warm": warm, "other": other, "eol": eol}
 
 
 def generate(rng, n):
@@ -203,6 +214,23 @@ def corpus():
         # the same data read first under another contig list in the same interpreter
         dict(_ucase(["#sort.order Coordinate", "#contigs chr1,chr2,chr10"], ["Coordinate", ["chr1", "chr2", "chr10"]],
                     [["chr1", "9", "9"], ["chr2", "1", "1"], ["chr10", "1", "1"]]), warm=["chr10", "chr2", "chr1"]),
+        # a record with a validation error in a non-key column still takes part in the order check
+        _tcase(["#sort.order Coordinate"], ["Coordinate", None],
+               [dict(chrom="1", start="5", end="5"), dict(chrom="1", start="9", end="9"), dict(chrom="1", start="7", end="7", strand="?"),
+                dict(chrom="1", start="8", end="8")]),
+        _tcase(["#sort.order Coordinate"], ["Coordinate", None],
+               [dict(chrom="1", start="5", end="5"), dict(chrom="1", start="9", end="9", vtype="XYZ"), dict(chrom="1", start="7", end="7")]),
+        # CRLF lines handed over raw, a key column last: the column line's CR must not end up in the last column name
+        dict(_ucase(["#sort.order Coordinate"], ["Coordinate", None], [["chr1", "5", "5"], ["chr1", "5", "9"], ["chr1", "5", "7"]]),
+             other="none", names=[C.N_CHROM, C.N_START, C.N_END], eol="\r\n"),
+        dict(_ucase(["#sort.order Coordinate", "#contigs chr1,chr2"], ["Coordinate", ["chr1", "chr2"]],
+                    [["9", "chr2"], ["1", "chr1"]], names=(C.N_START, C.N_CHROM)),
+             other="none", names=[C.N_START, C.N_CHROM], eol="\r\n"),
+        # BarcodesAndCoordinate with contigs stays a barcode order
+        _ucase(["#sort.order BarcodesAndCoordinate", "#contigs chr1,chr2"], ["BarcodesAndCoordinate", ["chr1", "chr2"]],
+               [["T1", "chr2", "5"], ["T2", "chr1", "5"], ["T2", "chr2", "1"]], names=(C.N_TUMOR, C.N_CHROM, C.N_START)),
+        _ucase(["#sort.order BarcodesAndCoordinate", "#contigs chr1,chr2"], ["BarcodesAndCoordinate", ["chr1", "chr2"]],
+               [["T2", "chr1", "5"], ["T1", "chr2", "5"]], names=(C.N_TUMOR, C.N_CHROM, C.N_START)),
         # falsy values: contigs "0","1" under a typed scheme (chromosome int 0), by name and by contig rank; position 0 untyped
         _tcase(["#sort.order Coordinate"], ["Coordinate", None],
                [dict(chrom="0", start="5", end="5"), dict(chrom="0", start="7", end="7"), dict(chrom="1", start="1", end="1"),
@@ -220,11 +248,20 @@ def shrink(case):
 
 
 # ------------------------------------------------------------ files
+def _with_other(case, cols):
+    where = case.get("other", "last")
+    if where == "first":
+        return [["Other", "x"]] + cols
+    if where == "none":
+        return list(cols)
+    return cols + [["Other", "x"]]
+
+
 def _desc(case, d):
     if d["kind"] == "short":
         return {"kind": "untyped", "cols": []}
     if d["kind"] == "untyped":
-        return {"kind": "untyped", "cols": d["cols"] + [["Other", "x"]]}
+        return {"kind": "untyped", "cols": _with_other(case, d["cols"])}
     return d
 
 
@@ -232,12 +269,18 @@ def _line(case, d):
     if d["kind"] == "short":
         return "\t".join(["x"] * (len(case["names"]) + 1))
     if d["kind"] == "untyped":
-        return C.untyped_line(d["cols"] + [["Other", "x"]])
+        return C.untyped_line(_with_other(case, d["cols"]))
     return C.typed_line(d["f"])
 
 
 def file_lines(case):
     return list(case["header"]) + ["\t".join(case["names"])] + [_line(case, d) for d in case["rows"]]
+
+
+def raw_lines(case):
+    """the lines as handed to MafReader: bare, or with their LF / CRLF terminator"""
+    eol = case.get("eol", "")
+    return [l + eol for l in file_lines(case)]
 
 
 # ------------------------------------------------------------ model wire
@@ -259,12 +302,12 @@ def run_impl(case):
         # the same file under a different contig list is read first (its outcome does not matter)
         hdr = [l for l in case["header"] if not l.startswith("#contigs ")] + ["#contigs " + ",".join(case["warm"])]
         try:
-            for _ in MafReader(lines=iter(hdr + file_lines(case)[len(case["header"]):]),
+            for _ in MafReader(lines=iter(hdr + raw_lines(case)[len(case["header"]):]),
                                validation_stringency=ValidationStringency.Silent):
                 pass
         except Exception:
             pass
-    reader = MafReader(lines=iter(file_lines(case)), validation_stringency=ValidationStringency.Silent)
+    reader = MafReader(lines=iter(raw_lines(case)), validation_stringency=ValidationStringency.Silent)
     echo, end = [], None
     try:
         for rec in reader:
